@@ -468,3 +468,36 @@ def build_topdown_gt_predictor(mods, scene, cfg):
         preprocess_config=pre, anchor_ind=None)
     p._initialize_inference_model()
     return p, stub_i
+
+
+def build_topdown_centroid_only_predictor(mods, scene, cfg):
+    """TopDownPredictor with the centered-instance model left out: CentroidCrop(return_crops=False)
+    followed by FindInstancePeaksGroundTruth (LabelsReader only, instances_key=True).
+    cfg: dict(os_c, scale_c, ms_c, max_h, max_w, batch, refinement, max_instances)."""
+    torch, OmegaConf, predictors = mods
+    stub_c = make_stub(torch, "centroid", scene, cfg["os_c"])
+    cc = base_cfg(OmegaConf, "centroid", cfg["os_c"], cfg["scale_c"], cfg["ms_c"], cfg["max_h"], cfg["max_w"])
+    pre = OmegaConf.create({"is_rgb": True, "crop_hw": None, "max_width": None, "max_height": None,
+                            "anchor_ind": None})
+    p = predictors.TopDownPredictor(
+        centroid_config=cc, confmap_config=None, centroid_model=stub_c, confmap_model=None,
+        centroid_backbone_type="unet", centered_instance_backbone_type=None, skeletons=["skeleton"],
+        peak_threshold=0.2, integral_refinement=cfg.get("refinement"), integral_patch_size=5,
+        batch_size=cfg["batch"], max_instances=cfg.get("max_instances"), return_confmaps=False, device="cpu",
+        preprocess_config=pre, anchor_ind=None)
+    p._initialize_inference_model()
+    return p, stub_c
+
+
+def run_predictor_raw(pred, provider: str, video, labels):
+    """make_pipeline + _predict_generator only (= Predictor.predict(make_labels=False)): the list of
+    dictionaries (numpy arrays, images dropped) and what make_pipeline decided."""
+    raw = []
+    with fake_sio(labels=labels, video=video):
+        pred.make_pipeline(provider, "fake.slp" if provider == "LabelsReader" else "fake.mp4", 8)
+        flags = {"preprocess": pred.preprocess, "instances_key": pred.instances_key,
+                 "preprocess_config": dict(pred.preprocess_config)}
+        for ex in pred._predict_generator():
+            raw.append({k: (np.array(v, copy=True) if isinstance(v, np.ndarray) else v)
+                        for k, v in ex.items() if k not in ("image", "instance_image")})
+    return raw, flags
